@@ -1597,6 +1597,7 @@ pub enum Sym {
     Aup,
     Alow,
     Abig,
+    Ahuge,
     T,
     Pfirst,
     Plast,
@@ -1625,6 +1626,7 @@ pub fn instantiate(sym: Sym, m: &RefLog, outstanding_flushes: usize, waited: usi
         Sym::Aup => w(Op::Append(vec![((term + 2, next), payload((term + 2, next), 0))])),
         Sym::Alow => w(Op::Append(vec![((term + 1, next), payload((term + 1, next), 0))])),
         Sym::Abig => w(Op::Append(vec![((term, next), payload((term, next), 2))])),
+        Sym::Ahuge => w(Op::Append(vec![((term, next), payload((term, next), 3))])),
         Sym::T => {
             let l = last?;
             if m.entries.contains_key(&l.1) {
